@@ -388,6 +388,18 @@ def _b_specific(model, rep, R):
     fn = model.func(u, "_choose_definition")
     rep.check(has_if(fn, "id_matches and definition.version == version", ["return definition"]), R, site(u, "_choose_definition"), "definition.version == parsed version",
               "PHC: a definition accepts exactly the version it renders (None = no field)")
+    # the identifiers a definition accepts: Argon2PHC covers every argon2 variant passlib's handler knows (ALL_TYPES)
+    du = model.unit("libpass.inspect.phc.defs")
+    au = model.unit("passlib.handlers.argon2")
+    types = model.fold(au, ast.Name(id="ALL_TYPES", ctx=ast.Load()))
+    ids = None
+    for st in model.cls("libpass.inspect.phc.defs", "Argon2PHC").body:
+        if isinstance(st, ast.AnnAssign) and isinstance(st.target, ast.Name) and st.target.id == "id" and isinstance(st.annotation, ast.Subscript):
+            sl = st.annotation.slice
+            ids = {e.value for e in (sl.elts if isinstance(sl, ast.Tuple) else [sl]) if isinstance(e, ast.Constant)}
+    rep.check(isinstance(types, (tuple, list)) and ids == {"argon2" + t for t in types}, R, site("libpass.inspect.phc.defs", "Argon2PHC.id"), f"Literal{sorted(ids) if ids else ids} vs argon2 + {types}",
+              "the libpass argon2 record definition accepts exactly the variants passlib's argon2 handler renders (argon2i / argon2d / argon2id)",
+              witness="inspect_phc('$argon2d$v=19$m=..,t=..,p=..$salt$hash', Argon2PHC) returns None and Argon2PHC(id='argon2d', ...).as_str() does not parse back")
     fn = model.func(u, "inspect_phc")
     rep.check(has_stmt(fn, "version = int(groups['version']) if groups['version'] is not None else None"), R, site(u, "inspect_phc"), "absent version -> None", "PHC: absent version is None")
 
